@@ -72,16 +72,30 @@ func (g *gen) name() string { g.next++; return fmt.Sprintf("F%d", g.next) }
 
 func (g *gen) aliasTags(name string, leaf bool) string {
 	r := g.r
-	parts := []string{fmt.Sprintf(`dialsalias:"old_%s"`, strings.ToLower(name))}
+	fam := families[g.src]
+	// every non-empty subset of {dialsalias, <source-specific>alias} (the latter on
+	// leaves of the sources that have one) x each primary tag present or not
+	base, special := true, false
+	if leaf && len(fam) > 1 {
+		switch r.Intn(4) {
+		case 0:
+			base, special = false, true // ONLY the source-specific alias
+		case 1:
+			special = true // both
+		}
+	}
+	var parts []string
+	if base {
+		parts = append(parts, fmt.Sprintf(`dialsalias:"old_%s"`, strings.ToLower(name)))
+	}
 	if r.Chance(1, 3) {
 		parts = append(parts, fmt.Sprintf(`dials:"cur_%s"`, strings.ToLower(name)))
 	}
-	fam := families[g.src]
-	if leaf && len(fam) > 1 && r.Chance(1, 3) {
+	if special {
 		parts = append(parts, fmt.Sprintf(`%salias:"OLD2_%s"`, fam[1], strings.ToUpper(name)))
-		if r.Chance(1, 2) {
-			parts = append(parts, fmt.Sprintf(`%s:"CUR2_%s"`, fam[1], strings.ToUpper(name)))
-		}
+	}
+	if leaf && len(fam) > 1 && (special && r.Chance(1, 2) || !special && r.Chance(1, 6)) {
+		parts = append(parts, fmt.Sprintf(`%s:"CUR2_%s"`, fam[1], strings.ToUpper(name)))
 	}
 	if r.Chance(1, 4) {
 		parts = append(parts, fmt.Sprintf(`dialsdesc:"the %s"`, name))
@@ -646,7 +660,7 @@ func gen_(r *coqfmt.Rng, n int, tier string) []json.RawMessage {
 func main() {
 	driver.Main(driver.Engine{
 		Prop: "C14", CoqImport: "Dials.Check.C14Check", CoqRun: "run_cases",
-		Rule: "random config types (scalar leaves of 11 kinds incl. durations and named scalars, nested value/pointer structs to depth 3, embedded structs) with dialsalias tags; every supplied value is the Go zero value of its type (false, 0, \"\", 0s) with probability 1/3 (plus dialsenvalias / dialsflagalias / dialspflagalias on leaves, with and without a primary tag, dialsdesc) on random leaf and struct-typed fields at any depth; up to 3 aliased targets per type, ALL 4^k neither/primary/alias/both patterns; other leaves set independently with probability 1/3; each type through one of: env source (with and without prefix), std flag source, pflag source, JSON decoder wrapped with ez's alias/reformat/set-slice manglers, or (four static config types with aliases on leaves, struct-typed, pointer and embedded fields) a JSON config FILE read through the real ez.JSONConfigEnvFlag with Params drawn from DisableAutoSetToSlice x FileFieldNameEncoder in {nil, nil, lower_snake, kebab}, its view compared with the alias-wrapped decoder's result; non-trivial: at least one target and a pattern other than all-neither; distinct = distinct (type state, source, pattern)",
+		Rule: "random config types (scalar leaves of 11 kinds incl. durations and named scalars, nested value/pointer structs to depth 3, embedded structs) with dialsalias tags; every supplied value is the Go zero value of its type (false, 0, \"\", 0s) with probability 1/3 (every non-empty subset of {dialsalias, dialsenvalias / dialsflagalias / dialspflagalias} on leaves - incl. ONLY the source-specific alias - each of dials and the source-specific primary tag present or not, dialsdesc) on random leaf and struct-typed fields at any depth; up to 3 aliased targets per type, ALL 4^k neither/primary/alias/both patterns; other leaves set independently with probability 1/3; each type through one of: env source (with and without prefix), std flag source, pflag source, JSON decoder wrapped with ez's alias/reformat/set-slice manglers, or (four static config types with aliases on leaves, struct-typed, pointer and embedded fields) a JSON config FILE read through the real ez.JSONConfigEnvFlag with Params drawn from DisableAutoSetToSlice x FileFieldNameEncoder in {nil, nil, lower_snake, kebab}, its view compared with the alias-wrapped decoder's result; non-trivial: at least one target and a pattern other than all-neither; distinct = distinct (type state, source, pattern)",
 		Gen:  gen_, Run: run,
 	})
 }
